@@ -20,7 +20,10 @@ theorem C11_nil_matrix (p : List (String × String)) : validate none p = .ok () 
 theorem C11_order_independent (m m' : Matrix) (p p' : List (String × String))
     (wf : WF (some m) p)
     (hp : p'.Perm p) (hs : m'.setup.Perm m.setup)
-    (ha : List.Forall₂ (fun a' a => a'.with_.Perm a.with_ ∧ a'.skip = a.skip) m'.adjustments m.adjustments) :
+    (ha : List.Forall₂ (fun x' x => match x', x with
+            | some a', some a => a'.with_.Perm a.with_ ∧ a'.skip = a.skip
+            | none, none => True
+            | _, _ => False) m'.adjustments m.adjustments) :
     validate (some m') p' = .ok () ↔ validate (some m) p = .ok () :=
   validate_perm m m' p p' wf hp hs ha
 
@@ -31,16 +34,27 @@ theorem C11_shouldSkip_table :
 
 /-- A malformed adjustment (wrong set of dimensions) makes every permutation be rejected. -/
 theorem C11_malformed_adjustment_rejects (m : Matrix) (p : List (String × String)) (wf : WF (some m) p)
-    (a : Adj) (ha : a ∈ m.adjustments) (hbad : ¬ adjWellFormed m a) :
+    (a : Adj) (ha : some a ∈ m.adjustments) (hbad : ¬ adjWellFormed m a) :
     validate (some m) p ≠ .ok () := by
   intro h
   have := (validate_iff (some m) p wf).mp h
-  exact hbad (this.2.1 a ha)
+  obtain ⟨a', ha', hw⟩ := this.2.1 (some a) ha
+  cases ha'
+  exact hbad hw
+
+/-- A null entry in the adjustments list makes every permutation be rejected (and nothing panics:
+    `validate` is a total function). -/
+theorem C11_null_adjustment_rejects (m : Matrix) (p : List (String × String)) (wf : WF (some m) p)
+    (ha : none ∈ m.adjustments) : validate (some m) p ≠ .ok () := by
+  intro h
+  have := (validate_iff (some m) p wf).mp h
+  obtain ⟨a', ha', _⟩ := this.2.1 none ha
+  cases ha'
 
 /-- A permutation equal to the tuple of an adjustment marked skip is rejected, even if it is
     also a combination of setup values or matches another, non-skipped adjustment. -/
 theorem C11_skip_rejects (m : Matrix) (p : List (String × String)) (wf : WF (some m) p)
-    (a : Adj) (ha : a ∈ m.adjustments) (heq : adjEquals a p) (hskip : shouldSkip a.skip = true) :
+    (a : Adj) (ha : some a ∈ m.adjustments) (heq : adjEquals a p) (hskip : shouldSkip a.skip = true) :
     validate (some m) p ≠ .ok () := by
   intro h
   have := (validate_iff (some m) p wf).mp h
@@ -68,8 +82,8 @@ theorem C11_interp_only_if_accepted {S E : Type} (interp : List (String × Strin
 /-! Non-vacuity: a two-dimension matrix with an adjustment adding a new value and a skip. -/
 def exM : Matrix :=
   { setup := [("os", some ["linux", "mac"]), ("arch", some ["arm", "x86"])],
-    adjustments := [ { with_ := [("os", "windows"), ("arch", "x86")], skip := .absent },
-                     { with_ := [("arch", "arm"), ("os", "mac")], skip := .other } ] }
+    adjustments := [ some { with_ := [("os", "windows"), ("arch", "x86")], skip := .absent },
+                     some { with_ := [("arch", "arm"), ("os", "mac")], skip := .other } ] }
 
 example : validate (some exM) [("arch", "x86"), ("os", "windows")] = .ok () := by decide
 example : validate (some exM) [("os", "mac"), ("arch", "arm")] = .error .skipped := by decide
@@ -80,7 +94,7 @@ example : WF (some exM) [("arch", "x86"), ("os", "windows")] := by
   · decide
   · intro mm h; cases h; decide
   · intro mm h a ha; cases h
-    simp only [exM, List.mem_cons, List.not_mem_nil, or_false] at ha
+    simp only [exM, List.mem_cons, List.not_mem_nil, or_false, Option.some.injEq] at ha
     rcases ha with rfl | rfl <;> decide
 
 end GoPipeline.MatrixV
